@@ -295,6 +295,11 @@ def o_c06(term, t, op, pre, post, ridx, fails):
             extra = list(new)
             for x in old:
                 extra.remove(x)
+            given = given_texts(f, as_list=True)
+            if given is not None and sorted(extra) != sorted(given):
+                fails.append({'oracle': 'C06.exact', 'step': t,
+                              'msg': 'character %d gained %s, but the given settings are %s (before: %s, after: %s)' % (k, extra, given, old, new)})
+                return
             if added is None:
                 added = extra
             elif sorted(extra) != sorted(added):
@@ -334,6 +339,28 @@ def o_c06(term, t, op, pre, post, ridx, fails):
                             return
 
 
+_GIVEN = {}
+
+
+def given_texts(f, as_list=False):
+    """the settings a selection names, observed on the implementation itself: what apply_formatting(selection) puts
+    on a character of a fresh string (None when the selection is None = everything, or cannot be evaluated)"""
+    if f is None or f == ['other', False]:
+        return None
+    key = repr(f)
+    if key not in _GIVEN:
+        from .impl import form_py, guarded
+        from ansi_string import AnsiString
+        try:
+            s = AnsiString('x')
+            guarded(lambda: s.apply_formatting(form_py(f)))
+            _GIVEN[key] = [str(x) for x in s.ansi_settings_at(0)]
+        except Exception:  # noqa
+            _GIVEN[key] = None
+    g = _GIVEN[key]
+    return g if (g is None or as_list) else set(g)
+
+
 def o_c07(term, t, op, pre, post, ridx, fails):
     name = op[0]
     i = op[1]
@@ -349,8 +376,14 @@ def o_c07(term, t, op, pre, post, ridx, fails):
         return
     a, b = norm_range(n, st, en)
     removed_vals = None
+    given = given_texts(f)
     for k in range(n):
         old, new = texts(src[CHARS][k]), texts(res[CHARS][k])
+        if (a <= k < b) and given is not None and new != [x for x in old if x not in given]:
+            fails.append({'oracle': 'C07.exact', 'step': t,
+                          'msg': 'character %d reports %s after remove_formatting; before it had %s and the given settings are %s, so %s was expected'
+                                 % (k, new, old, sorted(given), [x for x in old if x not in given])})
+            return
         if not (a <= k < b):
             if not prec_equiv(term, old, new):
                 fails.append({'oracle': 'C07.outside', 'step': t, 'msg': 'character %d outside [%d,%d) changed from %s to %s' % (k, a, b, old, new)})
